@@ -20,7 +20,7 @@ NOT_DECIDED = "what dependencies do internally with the key material (trusted)"
 TRUSTED = ["ed25519-dalek does not log key material", "data-free error types (TryFromSliceError, DecodeError, ring Unspecified, SignatureError) carry no input bytes"]
 
 SINK_LOG = ("log::__private_api::log", "std::io::stdio::_print", "std::io::stdio::_eprint", "core::panicking::panic_fmt", "std::rt::panic_fmt", "core::panicking::panic_display")
-DATA_FREE_ERR = ("TryFromSliceError", "DecodeError", "Unspecified", "SignatureError", "KeyRejected", "Infallible", "std::io::error::Error", "AddrParseError",
+DATA_FREE_ERR = ("TryFromSliceError", "DecodeError", "Unspecified", "SignatureError", "signature::error::Error", "TryFromIntError", "KeyRejected", "Infallible", "std::io::error::Error", "AddrParseError",
                  "ParseIntError", "ctrlc::error::Error", "SetLoggerError", "SystemTimeError", "()")
 SECRET_ADTS = ("roughenough::config::file::FileConfig", "roughenough::config::environment::EnvironmentConfig", "roughenough::config::memory::MemoryConfig",
                "roughenough::sign::MsgSigner", "roughenough::key::longterm::LongTermKey", "roughenough::key::online::OnlineKey",
